@@ -1,6 +1,7 @@
 package checks
 
 import (
+	"bytes"
 	"encoding/json"
 	"errors"
 	"fmt"
@@ -119,8 +120,15 @@ func (o *crOut) judgeError(site string, err error, input []byte) {
 	if code <= 1 {
 		o.add("c16", fmt.Sprintf("internal-failure-code-%d:%s", code, site), fmt.Sprintf("%s returned code %d (%q) for %.120q", site, code, firstLineStr(msg), input))
 	}
-	if rePointer.MatchString(msg) {
-		o.add("c16", "message-dumps-internals:"+site, fmt.Sprintf("%s: message %.200q for %.120q", site, msg, input))
+	if m := rePointer.FindString(msg); m != "" {
+		// a hexadecimal number that the input itself contains is a quotation, not a pointer
+		quoted := bytes.Contains(input, []byte(m))
+		for _, t := range o.texts {
+			quoted = quoted || bytes.Contains(t, []byte(m))
+		}
+		if !quoted {
+			o.add("c16", "message-dumps-internals:"+site, fmt.Sprintf("%s: message %.200q for %.120q", site, msg, input))
+		}
 	}
 	if !errors.As(err, &je) || !strings.Contains(msg, "\n\tin line ") {
 		return
